@@ -94,8 +94,23 @@ def step_rules(chk):
     r2 = analyse(chk, q2, lambda I, st, fi: dict(values=rec_array("values")))
     am = [e for e in r2.events("lib-call", q2) if e.name == "numpy.argmin"]
     called = [e for e in r2.events("call", q2) if e.callee == q]
-    chk.ob("R-STEP-LEVELS", c + "{default split}", "default split = argmin(calc_step_fn_vals_error(values))", len(am) == 1 and len(called) == 1 and
-           called[0].bound["values"].origin == frozenset(["p:values"]), derived="%d argmin, %d error call(s)" % (len(am), len(called)), loc=r2.fi.loc())
+    okd = len(am) == 1 and len(called) == 1 and called[0].bound["values"].origin == frozenset(["p:values"])
+    der = "%d argmin, %d error call(s)" % (len(am), len(called))
+    inc = False
+    if len(am) == 1 and not called:
+        # the error routine is not called by name (both may share a worker): the array handed to argmin must then be, in everything this
+        # analysis derives (typing, degree, tags, shape), the array calc_step_fn_vals_error(values) returns with its defaults
+        r3 = analyse(chk, q, lambda I, st, fi: dict(values=rec_array("values")))
+
+        def summ(v):
+            return (v.kind, v.dtype, repr(v.shape), tuple(sorted((k, repr(x)) for k, x in v.alg.items())), v.sign,
+                    tuple(sorted(t for t in v.tags if not t.startswith(("ret:", "at#")))))
+        a_, b_ = summ(am[0].args[0]), summ(r3.ret)
+        okd = a_ == b_
+        inc = not okd          # not located by name and not recognisably the same array: no verdict
+        der = "no call of the error routine; argmin over %s; calc_step_fn_vals_error(values) returns %s" % (a_, b_)
+    chk.ob("R-STEP-LEVELS", c + "{default split}", "default split = argmin(calc_step_fn_vals_error(values))", okd, derived=der, loc=r2.fi.loc(),
+           inconclusive=inc)
 
 
 def roll_rules(chk):
@@ -109,7 +124,41 @@ def roll_rules(chk):
         c = "eqsig/fns/average.py:calc_roll_av_vals(mode=%s)" % mode
         unmodelled_in(r, chk, "R-ROLL", c)
         expect(chk, "R-ROLL", c, r.ret, length="n", lin=[R], kind=K_ARRAY, tags_has=["cum", "p:steps"], loc=fi.loc())
-        cc = [e for e in r.events("lib-call", q) if e.name == "numpy.concatenate"]
+        cc_all = [e for e in r.events("lib-call", q) if e.name == "numpy.concatenate"]
+        # the extension is the concatenation that contains the record itself (another one may assemble the zero-led running sum)
+        cc = [e for e in cc_all if e.args and e.args[0].items is not None and any(i.kind == K_ARRAY and "p:values" in i.tags and "cum" not in i.tags and repr(i.length()) == "n" for i in e.args[0].items)]
+        pads = [e for e in r.events("lib-call", q) if e.name == "numpy.pad"]
+        if not cc and len(pads) == 1:
+            # the same extension by np.pad(values, (before, after), mode='edge')
+            pe = pads[0]
+            pw = pe.args[1] if len(pe.args) > 1 else pe.kwargs.get("pad_width")
+            md = pe.kwargs.get("mode") or (pe.args[2] if len(pe.args) > 2 else None)
+            expect(chk, "R-ROLL", c + "{extension}", r.I.api.as_num(pe.args[0]), lin=[R], loc=pe.loc)
+            # the same replication spelt mode='constant', constant_values=(x[0], x[-1]) for the padded x
+            cvk = [k for k in getattr(pe.node, "keywords", []) if k.arg == "constant_values"]
+            a0n = pe.node.args[0] if getattr(pe.node, "args", None) else None
+            by_consts = md is not None and md.has_const() and md.const == "constant" and len(cvk) == 1 and isinstance(cvk[0].value, ast.Tuple) and \
+                isinstance(a0n, ast.Name) and [" ".join(ast.unparse(x).split()) for x in cvk[0].value.elts] == ["%s[0]" % a0n.id, "%s[-1]" % a0n.id]
+            chk.ob("R-ROLL", c + "{edges}", "the pads replicate the first / last value (mode='edge')", md is not None and md.has_const() and (md.const == "edge" or by_consts) and
+                   "p:values" in pe.args[0].tags and repr(pe.args[0].length()) == "n" and "cum" not in pe.args[0].tags, derived="mode=%s" % (md.const if (md is not None and md.has_const()) else None), loc=pe.loc)
+            its = pw.items if (pw is not None and pw.items is not None and len(pw.items) == 2) else None
+            if its is None:
+                chk.ob("R-ROLL", c + "{padding}", "pad widths (before, after)", False, derived="pad widths not derived", inconclusive=True, loc=pe.loc)
+            else:
+                bsym = its[0].sym if its[0].sym is not None else None
+                asym = its[1].sym if its[1].sym is not None else None
+                tot = (bsym + asym) if (bsym is not None and asym is not None) else None
+                if mode == "forward":
+                    okp = repr(bsym) == "0" and asym == LinExpr("S") - 1
+                elif mode == "backward":
+                    okp = repr(asym) == "0" and bsym == LinExpr("S") - 1
+                else:
+                    okp = tot == LinExpr("S") - 1 and bsym is not None and repr(bsym).startswith(("int[", "floor[", "floordiv[")) and "S" in repr(bsym) and \
+                        "2" in repr(bsym)
+                chk.ob("R-ROLL", c + "{padding}", {"forward": "forward: pads after the record with steps-1 edge values",
+                                                   "backward": "backward: pads before the record with steps-1 edge values"}.get(
+                    mode, "centre: floor(steps/2) before and steps-1-floor(steps/2) after"), okp,
+                    derived="pad widths (%r, %r), sum %r" % (bsym, asym, tot), loc=pe.loc, inconclusive=(bsym is None or asym is None))
         if len(cc) == 1:
             expect(chk, "R-ROLL", c + "{extension}", cc[0].args[0] if False else r.I.api.as_num(cc[0].args[0]), lin=[R], loc=cc[0].loc)
             ln = None
@@ -132,6 +181,12 @@ def roll_rules(chk):
                 edge = [("sel" in "".join(p.tags)) for p in parts]
         ss = [e for e in r.events("store-shape", q)]
         okss = all(e.target_shape == e.value_shape for e in ss) and bool(ss)
+        if not ss:
+            # the zero-led running sum assembled in one piece: np.concatenate([[0.0], np.cumsum(extended)])
+            zl = [e for e in cc_all if e not in cc and e.args and e.args[0].items is not None and len(e.args[0].items) == 2 and
+                  "cum" in e.args[0].items[1].tags and r.I.api.as_num(e.args[0].items[0]).sign == S_ZERO and
+                  repr(r.I.api.as_num(e.args[0].items[0]).length()) == "1"]
+            okss = len(zl) == 1
         chk.ob("R-ROLL", c + "{cumsum store}", "the cumulative sum fills csum[1:] exactly", okss,
                derived="%s" % [(e.target_shape, e.value_shape) for e in ss], loc=ss[0].loc if ss else fi.loc())
     rets = [n for n in ast.walk(fi.node) if isinstance(n, ast.Return) and n.value is not None]
@@ -303,7 +358,21 @@ def interp2d_rules(chk):
     chk.ob("R-I2D", c + "{clamping}", "lower index clamped at 0, upper index at len(xf) - 1 (each clamps itself)", cl_lo and cl_up,
            derived="lower clamped at 0: %s; upper clamped at len-1: %s" % (cl_lo, cl_up), loc=fi.loc())
     okb, whyb = False, "bracket indices are not two np.where selections"
-    if callname(e_lo) == "where" and callname(e_up) == "where" and len(e_lo.args) == 3 and len(e_up.args) == 3:
+    if callname(e_lo) == "where" and callname(e_up) != "where" and len(e_lo.args) == 3 and nm.poly(e_up) == nm.poly(e_lo) + Poly.const(1):
+        # the upper index written as (unclamped lower index) + 1: the same bracket, (N-1, N) / (N, N+1)
+        c0, a0_, b0_ = e_lo.args
+        N = nm.poly(b0_)
+        near = N.is_monomial() and len(N.atoms()) == 1 and "argmin(" in list(N.atoms())[0] and "abs(" in list(N.atoms())[0]
+        shape_ok = nm.poly(a0_) == N - Poly.const(1)
+        cond_ok = False
+        if isinstance(c0, ast.Compare) and len(c0.ops) == 1:
+            node_at = nm.opaque(ast.Subscript(value=ast.Name(id=xf, ctx=ast.Load()), slice=b0_, ctx=ast.Load()))
+            l_, r_ = nm.poly(c0.left), nm.poly(c0.comparators[0])
+            cond_ok = (isinstance(c0.ops[0], ast.Gt) and l_ == Poly.atom(node_at) and r_ == Poly.atom(xq)) or \
+                      (isinstance(c0.ops[0], ast.Lt) and r_ == Poly.atom(node_at) and l_ == Poly.atom(xq))
+        okb = near and shape_ok and cond_ok
+        whyb = "upper = lower + 1; nearest node by argmin|x - xf|: %s; lower is (N-1 if cond else N): %s; condition xf[N] > x: %s" % (near, shape_ok, cond_ok)
+    elif callname(e_lo) == "where" and callname(e_up) == "where" and len(e_lo.args) == 3 and len(e_up.args) == 3:
         c0, a0_, b0_ = e_lo.args
         c1, a1_, b1_ = e_up.args
         same_c = ast.dump(c0) == ast.dump(c1)
